@@ -125,6 +125,9 @@ def gen_env(rng, root, names=None, tag=0):
         names = [rng.choice(['t', 'task', 'run.x', 'a b', 'grp/t', 'g/h/t',
                              './t'])
                  + str(i) for i in range(rng.randint(1, 6))]
+        if rng.random() < 0.15:
+            # the task whose output directory is the output root itself
+            names[rng.randrange(len(names))] = ''
     env = Env()
     for name in names:
         status = rng.choice([TaskStatus.DONE] * 4 + list(TaskStatus))
